@@ -4,6 +4,7 @@ CONSTANTS
   CalVals <- CV_Tiny
   Ls <- L_123
   Export = TRUE
+  Canonical = FALSE
   Variant = "code"
 CONSTRAINT ExportDone
 INVARIANT ExactlyOne
